@@ -827,7 +827,12 @@ class Class(CanContainImportsDocumentable):
         elif name in self._localNameToFullName_map:
             return self._localNameToFullName_map[name]
         else:
-            return self.parent._localNameToFullName(name)
+            # The scope of a class body does not extend to the classes nested in it:
+            # what is not bound in this class is looked up outside of the enclosing classes.
+            scope = self.parent
+            while isinstance(scope, Class):
+                scope = scope.parent
+            return scope._localNameToFullName(name)
 
     @property
     def constructor_params(self) -> Mapping[str, Optional[ast.expr]]:
